@@ -46,7 +46,7 @@ def run(tier):
                       "the charstrings of the corpus CFF fonts with their real subroutines.")
     ck.assumptions = ["outcome-class agreement with the models is reported (outcome_differs_from_model) but a difference alone is "
                       "not a violation of totality", "IFT client totality is exercised by C18/C19 (malformed patches, failing "
-                      "decoder) and, beyond the depth of the child-entry relation, not repeated here", "paint-graph guards are exercised through the corpus drive and C13; the charstring model is exact only while "
+                      "decoder); here: the depth of the child-entry relation and damaged mapping tables", "paint-graph guards are exercised through the corpus drive and C13; the charstring model is exact only while "
                       "coordinates stay within +-16000 units (no 32-bit wrap-around); blend / vsindex are evaluated without blend state", "deadline 20 s per driven font, 5 s per model case"]
     wd = vlib.workdir(PID)
     vlib.stage_specs(wd, "vm", "common")
@@ -103,6 +103,10 @@ def run(tier):
     # 300000 entries, ignored and not, conjunctive and disjunctive: an answer, not an exhausted stack (a dead child is a violation)
     res = vlib.run_harness("fv-ift", ["c19", "deepchain", "--n", 300000, "--out", os.path.join(wd, "deepchain.ndjson")], timeout=1200)
     ck.add_harness("deep-chains:ift-child-entries", res, traces=False)
+    # damaged mapping tables (every field of the IFT / IFTX tables of random well-formed format 2 fonts and of a format 1 font
+    # overwritten with boundary values, truncations) through intersecting_patches and select_next_patches
+    res = vlib.run_harness("fv-ift", ["c19", "hostilemaps", "--seed", vlib.seed(), "--n", 12 if tier == "quick" else 80, "--out", os.path.join(wd, "hostilemaps.ndjson")], timeout=1200)
+    ck.add_harness("hostile-maps:ift", res, traces=False)
     # the CFF / CFF2 charstring evaluator: Charstring.tla as a state machine over a program family (bounds, halting), every
     # program replayed on the real evaluator in a child process, and the charstrings of the corpus CFF fonts validated
     vlib.stage_specs(wd, "cff")
